@@ -33,7 +33,7 @@ def answer (line : String) : String :=
     match String.ofList p with
     | "C01" => if String.ofList op == "morph" then EditM.handleMorph rest else EditM.handle rest
     | "C17" => CharCat.handle rest
-    | "C08" => EditM.handle rest
+    | "C08" => if op = "morphc".toList then EditM.handleMorphC rest else EditM.handle rest
     | "C02" => Vit.handleRec rest
     | "C16" => Sentence.handle rest
     | "C13" => Oov.handle op rest
